@@ -741,6 +741,9 @@ func main() {
 	//    against the code-shaped model coq/Rlp/StreamModel.v (stream_ops.go)
 	streamSection(c, m)
 	concurrentFirstUse(c, m)
+	// 8. allocation on early failure (known input length), 9. EncodeToReader under interleaved encodes
+	earlyFailureAlloc(c, m)
+	readerInterleaved(c, m)
 	c.Assume("Go reflect and the rlp typecache are exercised only through interface{}/[]byte/[]uint64 targets in this item-level check; typed consensus structures are covered by the typed layer")
 	c.Finish()
 }
